@@ -560,6 +560,11 @@ func runConcurrent(c *engine.Ctx) engine.Result {
 		case 2:
 			rd.Clients = []string{"fetch-authorized", "fetch-authorized-twin", "auth", "fetch-authorized-twin", "token"}
 			rd.Acceptors = 5
+		case 3:
+			// many refused authentications around two honest ones: what the refusals leave behind (in the
+			// listener or anywhere in the process) must not reach the honest connections of this or a later round
+			rd.Clients = []string{"forged", "forged", "auth", "forged", "forged", "forged", "auth", "forged"}
+			rd.Acceptors = 2 + rng.Intn(7)
 		case 5:
 			rd.Clients = []string{"malformed", "auth", "malformed", "auth", "malformed", "token", "malformed", "fetch-authorized"}
 			rd.Acceptors = 2 + rng.Intn(3) // few acceptors: rejected and honest handshakes follow each other on the same goroutines
@@ -574,7 +579,7 @@ func runConcurrent(c *engine.Ctx) engine.Result {
 	r.Require("auth_connections_checked", 10)
 	r.Require("enrollments_checked:token", 10)
 	r.Require("enrollments_checked:wrapper", 5)
-	r.Require("forged_rejected", 5)
+	r.Require("forged_rejected", 100)
 	r.Require("malformed_rejected", 20)
 	r.Require("rounds_with_nil_entries_in_listener_options", int64(rounds/4))
 	r.Require("enrollments_checked:twin", 20)
